@@ -29,14 +29,14 @@ namespace Thick
 open ParallelsIterator
 
 /-- The perpendicular walk `next_parallel(side)` does not touch. -/
-def Kept (side : LineSide) (a b : ParallelsIterator) : Prop :=
+def WalkKept (side : LineSide) (a b : ParallelsIterator) : Prop :=
   match side with
   | .left => b.right = a.right
   | .right => b.left = a.left
 
-theorem nextParallelFuel_kept : ∀ (fuel : Nat) (it : ParallelsIterator) (side : LineSide)
+theorem nextParallelFuel_walkKept : ∀ (fuel : Nat) (it : ParallelsIterator) (side : LineSide)
     (r : BresenhamPoint × Int) (it' : ParallelsIterator),
-    nextParallelFuel fuel it side = some (r, it') → Kept side it it' := by
+    nextParallelFuel fuel it side = some (r, it') → WalkKept side it it' := by
   intro fuel
   induction fuel with
   | zero => intro it side r it' h; simp [nextParallelFuel] at h
@@ -183,7 +183,7 @@ theorem next_step (M : Int) (it : ParallelsIterator) (hq : QInv M it)
     ∃ b ty it', it.next = some (some (b, ty), it') ∧ QInv M it' ∧ psi it + M ≤ psi it' ∧
       it'.thicknessThreshold = it.thicknessThreshold := by
   obtain ⟨pt, e, it1, h, hinv, hsf, hex⟩ := nextParallelFuel_spec 2 it it.nextSide hq.pinv
-  have hk := nextParallelFuel_kept _ _ _ _ _ h
+  have hk := nextParallelFuel_walkKept _ _ _ _ _ h
   obtain ⟨f1, f2, f3, f4, f5, f6, f7⟩ := hsf
   have hM0 : 0 ≤ it.perpendicularParameters.errorThreshold := by have := hq.pinv.thr_pos; omega
   have hM1 : 0 ≤ it1.perpendicularParameters.errorThreshold := by rw [f2]; exact hM0
@@ -264,7 +264,7 @@ theorem done_of_psi (t M : Int) (it : ParallelsIterator) (hq : QInv M it) (ht : 
 
 /-! ### The initial state, for every stroke offset -/
 
-theorem perp_params (l : Line) :
+theorem perpParams_paramLine (l : Line) :
     BresenhamParameters.new (paramLine l).perpendicular =
       ⟨Line.dmaj (paramLine l), ⟨2 * Line.dmin (paramLine l), 2 * Line.dmaj (paramLine l)⟩,
         ⟨Line.pmaj (paramLine l).perpendicular, Line.pmin (paramLine l).perpendicular⟩⟩ := by
@@ -281,7 +281,7 @@ theorem new_qinv (l : Line) (t : Int) (off : StrokeOffset) :
   have hD := dmaj_paramLine_pos l
   have hd0 := Line.dmin_nonneg (paramLine l)
   have hdD := Line.dmin_le_dmaj (paramLine l)
-  have hperp := perp_params l
+  have hperp := perpParams_paramLine l
   have hthr0 : 0 ≤ (BresenhamParameters.new (paramLine l).perpendicular).errorThreshold := by
     rw [hperp]; dsimp only; omega
   have hthr1 : 0 < (BresenhamParameters.new (paramLine l).perpendicular).errorThreshold := by
@@ -331,7 +331,7 @@ theorem new_qinv (l : Line) (t : Int) (off : StrokeOffset) :
     constructor <;> rw [hperp0, hperp] <;> dsimp only <;> omega
 
 /-- `(2 t)^2 (dx^2 + dy^2) <= 8 (t M)^2`. -/
-theorem threshold_le (l : Line) (t : Int) :
+theorem thicknessThreshold_le (l : Line) (t : Int) :
     t * 2 * (t * 2) * (Line.dxOf (paramLine l) * Line.dxOf (paramLine l) +
         Line.dyOf (paramLine l) * Line.dyOf (paramLine l)) ≤
       8 * ((t * Line.dmaj (paramLine l)) * (t * Line.dmaj (paramLine l))) := by
@@ -420,7 +420,7 @@ theorem extents_total (l : Line) (w : Nat) (off : StrokeOffset) : ∃ r, extents
   have hd0 := Line.dmin_nonneg (Thick.paramLine l)
   have hthr' : iter.thicknessThreshold ≤
       8 * ((satAsI32 w * Line.dmaj (Thick.paramLine l)) * (satAsI32 w * Line.dmaj (Thick.paramLine l))) := by
-    rw [hthr]; exact Thick.threshold_le l _
+    rw [hthr]; exact Thick.thicknessThreshold_le l _
   have hM0 : 0 ≤ iter.perpendicularParameters.errorThreshold := by rw [hq.thrM]; omega
   have bl := Thick.rdy_bounds iter .left hM0
   have br := Thick.rdy_bounds iter .right hM0
